@@ -121,6 +121,15 @@ def build(job):
         m.taxon_namespace.new_taxon("packed")
         m.pack(value=(0.5 if tp == "continuous" else m.default_state_alphabet["-"]))
         return m
+    if route == "from_dict+pack-front":
+        # ragged rows (the first row loses its last two cells) and a taxon without a row, completed by pack(append=False): padded at the FRONT
+        d = dict((l, r) for l, r in zip(labels, rows))
+        if len(rows[0]) > 2:
+            d[labels[0]] = rows[0][:-2]
+        m = cls.from_dict(dict((l, _join(tp, r)) for l, r in d.items()))
+        m.taxon_namespace.new_taxon("packed")
+        m.pack(value=(0.5 if tp == "continuous" else m.default_state_alphabet["-"]), append=False)
+        return m
     if route == "from_dict+case-sensitive-ns":
         # taxa added one by one to a case-sensitive namespace: labels that differ only in case are different taxa
         ns = dendropy.TaxonNamespace(is_case_sensitive=True)
@@ -201,6 +210,7 @@ def routes_for(tp):
         r.append("from_dict+sequence-objects")
     if tp in ("continuous", "dna"):
         r.append("from_dict+pack")
+        r.append("from_dict+pack-front")
     if tp in SUPPORT["nexus"]:
         r += ["parsed:nexus", "parsed:nexus-interleaved", "parsed:nexus-datablock"]
     r += ["parsed:phylip-relaxed", "parsed:phylip-strict", "parsed:phylip-relaxed-interleaved", "parsed:phylip-strict-interleaved"]
